@@ -313,21 +313,15 @@ const logGap = "\x00gap"
 var thoroughTier bool
 
 func (x *Exec) nextLoopOrd(f *Frame, n ast.Node) int {
-	if f.contract != nil && !f.inlined && f.fi != nil && f.fi.Decl != nil && f.fi.Decl.Body != nil {
-		if f.loopIdx == nil {
-			f.loopIdx = map[ast.Node]int{}
-			k := 0
-			ast.Inspect(f.fi.Decl.Body, func(m ast.Node) bool {
-				switch m.(type) {
-				case *ast.FuncLit:
-					return false
-				case *ast.ForStmt, *ast.RangeStmt:
-					k++
-					f.loopIdx[m] = k
-				}
-				return true
-			})
+	if t := x.closureTop(f); t != nil {
+		// a loop inside a closure of the function under verification: numbered after that function's own loops
+		x.fillLoopIdx(t)
+		if o, ok := t.loopIdx[n]; ok {
+			return o
 		}
+	}
+	if f.contract != nil && !f.inlined && f.fi != nil && f.fi.Decl != nil && f.fi.Decl.Body != nil {
+		x.fillLoopIdx(f)
 		if o, ok := f.loopIdx[n]; ok {
 			return o
 		}
@@ -336,8 +330,45 @@ func (x *Exec) nextLoopOrd(f *Frame, n ast.Node) int {
 	return f.loopOrd
 }
 
+func (x *Exec) fillLoopIdx(f *Frame) {
+	if f.loopIdx == nil {
+		f.loopIdx = map[ast.Node]int{}
+		for i, m := range loopNodes(f.fi.Decl.Body) {
+			f.loopIdx[m] = i + 1
+		}
+	}
+}
+
+// closureTop: f is the frame of a closure literal of the function under verification, inlined directly from it
+// (every frame between is such a closure frame too): the top frame, whose contract may carry invariants for the
+// closure's loops; nil otherwise
+func (x *Exec) closureTop(f *Frame) *Frame {
+	if !f.inlined || f.closureSig == nil || len(x.frames) < 2 {
+		return nil
+	}
+	t := x.frames[0]
+	if t.contract == nil || t.inlined || t.fi == nil || t.fi != f.fi || t.fi.Decl == nil || t.fi.Decl.Body == nil {
+		return nil
+	}
+	for _, g := range x.frames[1:] {
+		if !g.inlined || g.closureSig == nil || g.fi != t.fi {
+			return nil
+		}
+	}
+	return t
+}
+
 func (x *Exec) loopSpec(ord int) *LoopSpec {
 	f := x.frame()
+	if t := x.closureTop(f); t != nil {
+		x.fillLoopIdx(t)
+		for _, o := range t.loopIdx {
+			if o == ord {
+				return t.contract.Loops[ord]
+			}
+		}
+		return nil
+	}
 	if f.contract == nil || f.inlined {
 		return nil
 	}
@@ -713,9 +744,16 @@ func (x *Exec) execRange(s *State, n *ast.RangeStmt) *State {
 			length = coll
 		} else if isString(rt) {
 			// ranging over runes: abstract: index advances by >=1, value havoc
-			x.abstract("range over string (runes)")
+			// every byte index is visited (a superset of the rune starts the real loop visits); the rune at an ASCII byte
+			// is that byte, at any other byte some value >= 0x80 (a decoded multi-byte rune or RuneError 0xFFFD)
+			x.abstract("range over string (every byte index visited; rune == byte for ASCII bytes, >= 0x80 otherwise)")
 			length = Field(coll, 2)
-			elemAt = func(st *State, i *Term) *Term { return x.freshVar("rune", SInt) }
+			elemAt = func(st *State, i *Term) *Term {
+				r := x.freshVar("rune", SInt)
+				b := x.strByte(coll, i)
+				st.assume(And(Implies(Cmp("<", b, IntLit(128)), Eq(r, b)), Implies(Cmp(">=", b, IntLit(128)), And(Cmp(">=", r, IntLit(128)), Cmp("<=", r, IntLit(0x10FFFF))))))
+				return r
+			}
 		}
 	case *types.Pointer:
 		if at, ok := u.Elem().Underlying().(*types.Array); ok {
